@@ -89,8 +89,9 @@ func genC16(t *rapid.T) c16Case {
 				g.Recs = append(g.Recs, genLogRec(t, commit))
 			}
 			g.Fin = true
-			if i == ng-1 {
-				// only the newest transaction may lack (or have a mismatching) end marker
+			// the newest transaction often lacks (or has a mismatching) end marker; rarely one in
+			// the middle does (delivery must then stop right there, whatever follows)
+			if i == ng-1 || rapid.IntRange(0, 7).Draw(t, "midtorn") == 0 {
 				switch rapid.IntRange(0, 3).Draw(t, "tail") {
 				case 0:
 					g.Fin = false
@@ -317,6 +318,12 @@ func runC16(c c16Case, rec *evid.Rec) (core.Result, error) {
 	last := c.Groups[len(c.Groups)-1]
 	if last.Txn && !complete(last) {
 		res.Classes = append(res.Classes, "incomplete_tail_txn")
+	}
+	for _, g := range c.Groups[:len(c.Groups)-1] {
+		if !complete(g) {
+			res.Classes = append(res.Classes, "incomplete_txn_in_the_middle")
+			break
+		}
 	}
 	return res, nil
 }
